@@ -1197,6 +1197,10 @@ class Interp:
                 return Lst(list(recv.items.values()))
             if name == "pop":
                 k = a0.v if isinstance(a0, Const) else tagof(a0)
+                if k not in recv.items and len(args) < 2 and not getattr(recv, "shared_name", None):
+                    exc = ExcV("builtins.KeyError", {}, [a0])
+                    self.effect("raise", exc, site)
+                    raise _Raise(exc)
                 return recv.items.pop(k, args[1] if len(args) > 1 else Sym(f"pop({tagof(a0)})"))
             if name == "update":
                 if isinstance(a0, Dct):
